@@ -19,7 +19,7 @@ import (
 // c14Docs are JSON texts; "raw:" marks file contents used verbatim (not valid JSON).
 var c14Docs = []string{
 	`{"a":1,"b":[1,2,3]}`, `{"a":2,"b":[1,3,2]}`, `[1,2,2,3]`, `[3,2,1]`, `[{"id":1,"v":1},{"id":2,"v":2}]`, `[{"id":2,"v":2},{"id":1,"v":3}]`,
-	`1`, `1.05`, `{"a":{"b":{"c":{"x":1,"y":2,"z":[1,2,3]}}}}`, `{"a":{"b":{"c":{"x":3,"y":4,"z":[1]}}}}`, ``, `{"a":{"b":"x"}}`, `{"a":{"b":"y","c":[true]}}`, `"str"`, `[[1,2],[2,1]]`, `[[2,1]]`,
+	`[1,[1.0],{"a":2.0},5]`, `[2,[1.05],{"a":2.04},5,[1.0]]`, `{"a":{"b":{"c":{"x":1,"y":2,"z":[1,2,3]}}}}`, `{"a":{"b":{"c":{"x":3,"y":4,"z":[1]}}}}`, ``, `{"a":{"b":"x"}}`, `{"a":{"b":"y","c":[true]}}`, `"str"`, `[[1,2],[2,1]]`, `[[2,1]]`,
 }
 var c14Raw = []string{"raw:{invalid", "raw:a: [1, 2]\nb: x\n", "raw:msg: |\n  line one\n  line two\n", "raw:  a: 1\n  b:\n  - x\n", "raw:\n\n[1,2]\n\n"}
 
@@ -534,6 +534,13 @@ func runC14Diff(c *engine.Case) engine.Result {
 		// root removal has no well-defined RFC 6902 reading; not part of the contract leg
 		return res
 	}
+	if strings.HasPrefix(f.Arrays, "-setkeys") {
+		// the statement's precondition: every array-member object carries all the keys
+		keys := strings.Split(strings.Fields(f.Arrays)[1], ",")
+		if !membersCarryKeys(aV, keys) || !membersCarryKeys(bV, keys) {
+			return res
+		}
+	}
 	fd := cli.WriteFile(dir, "the.diff", produced)
 	pargs := append(append([]string{}, extra...), "-p")
 	pargs = append(pargs, f.args()...)
@@ -874,4 +881,31 @@ func stripStamp(s string) string {
 		s = s[:k+1] + "<scratch>" + s[j:]
 	}
 	return s
+}
+
+// membersCarryKeys reports whether every object that is a direct member of an array carries
+// all the given keys (the precondition of the keyed-set reading).
+func membersCarryKeys(v V, keys []string) bool {
+	switch t := v.(type) {
+	case []interface{}:
+		for _, e := range t {
+			if o, ok := e.(map[string]interface{}); ok {
+				for _, k := range keys {
+					if _, has := o[k]; !has {
+						return false
+					}
+				}
+			}
+			if !membersCarryKeys(e, keys) {
+				return false
+			}
+		}
+	case map[string]interface{}:
+		for _, e := range t {
+			if !membersCarryKeys(e, keys) {
+				return false
+			}
+		}
+	}
+	return true
 }
